@@ -50,7 +50,7 @@ type gen struct {
 }
 
 func newGen(t *ty) *gen {
-	g := &gen{t: t, alias: map[string]bool{}, names: map[string]string{}, dfl: map[string]string{}, dflV: map[string]*val{}, uni: map[string]bool{}}
+	g := &gen{t: t, alias: map[string]bool{}, names: map[string]string{}, dfl: map[string]string{}, dflV: map[string]*val{}, uni: map[string]bool{"true": true, "false": true}}
 	g.scan(t, false)
 	g.name(t)
 	return g
@@ -70,7 +70,8 @@ func (g *gen) scan(t *ty, underOpt bool) {
 	case kOpt:
 		g.scan(t.in, true)
 	case kRes:
-		g.scan(t.er, false)
+		// `[2]i8 ! T` parses as an array of results: an array error type needs a name
+		g.scan(t.er, true)
 		g.scan(t.ok, false)
 	}
 }
